@@ -209,6 +209,8 @@ class Check(PropertyCheck):
                 spec = (f"cu{i}_{d}", self.rng.choice(["list", "catch"]), 0, (spec,), None)
             out = sched.run_program(lambda: vm.call(spec), {}, self.rng, complete_prob=self.rng.choice([0.1, 0.5, 0.9]))
             runs.append((spec, out, None))
+        # the real executors (threads and processes, no controlled schedule): same reference result
+        runs += self.real_executor_runs()
         for spec, out, rc in runs:
             self.evaluations += 1
             try:
@@ -233,6 +235,37 @@ class Check(PropertyCheck):
         self.stat("oracle", "programs", len(runs))
         self.stat("oracle", "violations", nb)
         self.ob("oracle", "implementation oracle ran (Scheduler.run result/error == reference evaluator)", True)
+
+    def real_executor_runs(self):
+        import logging
+        from redun import Scheduler
+        from redun.config import Config
+        logging.getLogger("redun").setLevel(logging.ERROR)
+        out_runs = []
+        for i in range(4 if self.tier == "quick" else 60):
+            mode = ("thread", "process")[i % 2]
+            limits = {"r0": self.rng.choice([1, 2])}
+            spec = jobgen.gen_spec(self.rng, ["r0"], depth=self.rng.randint(1, 3), limits=limits, allow_all=True,
+                                   allow_nocse=(i % 4 == 0))
+            cfg = {"backend": {"db_uri": "sqlite:///:memory:"}, "limits": {k: str(v) for k, v in limits.items()},
+                   "executors.default": {"type": "local", "mode": mode, "max_workers": "3"}}
+            s = Scheduler(config=Config(cfg))
+            s.load()
+            s.logger.disabled = True
+            out = {}
+            try:
+                out["result"] = s.run(vm.call(spec))
+            except Exception as e:  # noqa: BLE001
+                out["error"] = (type(e).__name__, str(e))
+            finally:
+                for ex in s.executors.values():
+                    try:
+                        ex.stop()
+                    except Exception:  # noqa: BLE001
+                        pass
+            self.stat("real_executor", mode)
+            out_runs.append((spec, out, None))
+        return out_runs
 
     def replay(self, doc):
         r = doc.get("replay", {})
